@@ -41,7 +41,25 @@ def _worker(args):
         global _OBS, _TIER
         _TIER = tier
         eng = build(pid)
-        rep = eng.verify(key)
+        # symbolic execution of one body is bounded in time: a body that makes the executor diverge is undecided, not a hang
+        import signal
+
+        class _SymexTimeout(Exception):
+            pass
+
+        def _alarm(signum, frame):
+            raise _SymexTimeout()
+        limit = int(os.environ.get("VERIF_SYMEX_S", "300"))
+        old_handler = signal.signal(signal.SIGALRM, _alarm)
+        signal.alarm(limit)
+        try:
+            rep = eng.verify(key)
+        except _SymexTimeout:
+            return dict(key=key, name=key, error=f"symbolic execution exceeded {limit} s (undecided)", obligations=[], trivial=[], undecided=[],
+                        wall=time.time() - t0)
+        finally:
+            signal.alarm(0)
+            signal.signal(signal.SIGALRM, old_handler)
         obs = []
         allobs = rep.pop("obligations", [])
         pre = {}
@@ -87,6 +105,10 @@ def _worker(args):
                 base = BASELINE.get(pid, {}).get(key, {}).get(norm_name(ob.name))
                 if (item.get("witness") or {}).get("replayed"):
                     item["status"] = "failed"
+                elif ob.kind == "effect-guard" and ob.name.rstrip().endswith("requires False"):
+                    # the guard forbids the effect outright: reaching it at all (a model of the path exists) is the failure
+                    item["status"] = "failed"
+                    item["backend"] += "; the effect is forbidden by its guard and the path reaching it has a model"
                 elif base is not None and base < 1.0:
                     item["status"] = "failed"
                     item["backend"] += f"; discharged in {base:.2f}s on the unchanged tree (baseline)"
@@ -223,9 +245,12 @@ def run_property(pid, tier="quick", seed=0):
         tb = time.time()
         try:
             res = bfn(tier, seed)
-        except Exception:
-            crashes.append(dict(key="bounded " + bname, error=traceback.format_exc()))
-            continue
+        except Exception as e_:
+            # the suite runs the real code: an exception escaping it on a tree where it did not raise before comes from the code
+            # under test (the suites pass on the unchanged tree) - reported as a failing case, with the traceback in the replay file
+            res = dict(tool="cpython", bound="(suite aborted)", cases=1, distinct=1,
+                       failures=[dict(name=f"{pid} the real code raised an exception the bounded suite does not expect: {type(e_).__name__}",
+                                      case="suite-aborted:" + type(e_).__name__, traceback=traceback.format_exc()[-1500:])])
         res["name"] = bname
         res["wall_s"] = round(time.time() - tb, 2)
         fails = res.pop("failures", [])
